@@ -2298,6 +2298,16 @@ func TestVerifC13Conn(t *testing.T) {
 	// inside the resolver library at the k-th step — in the worlds where records would be found (the
 	// patched-in "no records, no error" then accepts a connection the RRset forbids), and in any
 	crashes := []string{"E", "L", "D1", "D2", "D3", "D4", "D5", "D6", "D7", "D8", "D9", "D12"}
+	// first the plain ones: a signed RRset with a DANE-EE record exists; the connection is in plaintext
+	// / presents another certificate / matches
+	pinned := c13Zone{a: "s", c: "-", q: "-", r: "X", m: "s", f: 2, recsM: []c13Rec{{usage: 3, sel: 1, mt: 1, target: 'L', dsel: 1, dmt: 1}}}
+	pinnedI := pinned
+	pinnedI.recsM = []c13Rec{{usage: 3, sel: 1, mt: 1, target: 'I', dsel: 1, dmt: 1}}
+	for _, inj := range []string{"E", "L", "D1", "D3", "D5"} {
+		w.connCaseX(t, out, pinned, "E", false, inj)
+		w.connCaseX(t, out, pinnedI, "LIR", true, inj)
+		w.connCaseX(t, out, pinned, "LIR", true, inj)
+	}
 	n = vh.N(4000) / 40
 	for i := 0; i < n; i++ {
 		z := good[rng.Intn(len(good))]
